@@ -8,6 +8,7 @@ observation.  No Mathlib imports.
 import Vibrato.Util.Wire
 import Vibrato.Model.Worker
 import Vibrato.Model.Mapper
+import Vibrato.Model.SpecMin
 
 namespace Vibrato.Driver.Tok
 open Vibrato Vibrato.Wire
@@ -312,31 +313,6 @@ def c02Pred (D : DictM) (o : TokOpts) (sent : List Nat) (ts : List ITok) : Bool 
   match acc 0 0 ts with
   | none => false
   | some (r, c) => c + D.cost r 0 == Lt.eos.minCost
-
-/-- Minimum total cost over ALL candidate segmentations of the sentence in the sense of
-`Props/C02cap.lean` (`CandSeg` from boundary 0 to a final boundary, `segCost`), computed by a
-forward dynamic programme over boundaries that does not depend on which boundaries the
-lattice loop visits.  It differs from the lattice minimum exactly when a candidate ends inside
-or right after a run of skipped spaces (`NoEndInSkip` fails; known finding F24). -/
-def specMin (E : LatEnv) : Option Int :=
-  let minOver (here : List (Nat × Int)) (l : Nat) (m0 : Option Int) : Option Int :=
-    here.foldl (fun m p =>
-      let v := p.2 + E.conn p.1 l
-      match m with
-      | none => some v
-      | some m' => some (min m' v)) m0
-  let init : List (List (Nat × Int)) := [(0, 0)] :: List.replicate E.len []
-  let table := (List.range E.len).foldl (fun tbl x =>
-    let here := tbl.getD x []
-    if here.isEmpty then tbl else
-    let sw := x + E.skip x
-    if sw ≥ E.len then tbl else
-    (E.cands sw).foldl (fun tbl c =>
-      match minOver here c.leftId none with
-      | none => tbl
-      | some b => tbl.modify c.endWord (· ++ [(c.rightId, b + c.wordCost)])) tbl) init
-  let finals := (List.range (E.len + 1)).filter fun sn => sn == E.len || E.len ≤ sn + E.skip sn
-  finals.foldl (fun m sn => minOver (table.getD sn []) 0 m) none
 
 /-- **C02, unrestricted reading**: the reported total equals the minimum over all candidate
 segmentations (`specMin`). -/
